@@ -242,6 +242,11 @@ namespace vh
   template<std::size_t L, bool CSC>
   using SparseOf = micm::SparseMatrix<double, typename SparseOrd<L, CSC>::type>;
 
+  inline std::string statusNameStr(int s)
+  {
+    return "S" + std::to_string(s);
+  }
+
   using Handler = std::function<std::string(Tok&)>;
   std::map<std::string, Handler>& registry();
   struct Reg
